@@ -29,6 +29,21 @@ def liftC {α} : Except Counts.Err α → Except Err α
   | .error .valueError => .error .valueError
   | .error .indexError => .error .indexError
 
+/-! ## stable sorting
+
+`sorted(...)` in Python is stable and `np.argsort` of a short array (< 17 elements:
+insertion sort inside numpy's introsort) keeps equal keys in first-index order.  A stable
+sort has exactly one possible result, so it is modelled by the structurally recursive
+insertion sort (which `decide` can run). -/
+
+def insertBy {α : Type} (le : α → α → Bool) (a : α) : List α → List α
+  | [] => [a]
+  | b :: l => if le a b then a :: b :: l else b :: insertBy le a l
+
+def stableSort {α : Type} (le : α → α → Bool) : List α → List α
+  | [] => []
+  | a :: l => insertBy le a (stableSort le l)
+
 /-! ## Python `dict` with integer keys/values: items in insertion order, keys distinct -/
 
 abbrev Dict := List (Int × Int)
@@ -82,9 +97,9 @@ abbrev Csv := List (List String)
 def csvHeader : List String := ["original", "mapped"]
 
 /-- `write`: header, then `sorted(self.to_mapped.items(), key=lambda x: x[0])`
-(Python's `sorted` is stable, as is `List.mergeSort`) -/
+(Python's `sorted` is stable) -/
 def TrimMapping.write (print : Int → String) (m : TrimMapping) : Csv :=
-  csvHeader :: ((m.toMapped.mergeSort (fun a b => decide (a.1 ≤ b.1))).map fun p => [print p.1, print p.2])
+  csvHeader :: ((stableSort (fun a b => decide (a.1 ≤ b.1)) m.toMapped).map fun p => [print p.1, print p.2])
 
 /-- one data row: `for h, v in zip(headers, row): column[h].append(int(v))` -/
 def readRow (parse : String → Option Int) (row : List String) (cols : List Int × List Int) :
@@ -271,7 +286,7 @@ def cxSum (l : List Cx) : Cx := l.foldr Cx.add Cx.zero
 
 /-- `np.argsort(-np.real(vals))` with first-index order among equal keys -/
 def argsortDesc (vals : List Cx) : List Nat :=
-  (((List.range vals.length).zip vals).mergeSort (fun a b => decide (-a.2.re ≤ -b.2.re))).map (·.1)
+  (stableSort (fun a b => decide (-a.2.re ≤ -b.2.re)) ((List.range vals.length).zip vals)).map (·.1)
 
 /-- `n_eigs` handling at the top of `eigenspectrum` (`n` = `T.shape[0]`) -/
 def resolveNEigs (n : Nat) (nEigs : Option Int) : Except Err Nat :=
